@@ -1,7 +1,13 @@
 #!/bin/bash
-# try_seed.sh <seedname> <check ids...> : apply the seeded patch to /repo, run the checks (quick), undo
+# try_seed.sh <seedname> <check ids...> : apply the seeded patch to /repo, run the checks (quick), undo.
+# The evidence files of the checks are put back afterwards: committed evidence must come from the unchanged tree.
 S=$1; shift
 git -C /repo apply /verif/seeded/$S/patch.diff || exit 1
-for P in "$@"; do (cd /verif && ./check $P 2>&1 | grep -E "VIOLATION|\[check\] $P" | head -4); done
+for P in "$@"; do
+  cp /verif/evidence/$P.json /tmp/evidence_$P.json.bak 2>/dev/null
+  (cd /verif && ./check $P 2>&1 | grep -E "VIOLATION|\[check\] $P" | head -4)
+  [ -f /tmp/evidence_$P.json.bak ] && mv /tmp/evidence_$P.json.bak /verif/evidence/$P.json
+  rm -f /verif/evidence/replay/$P-*
+done
 git -C /repo checkout -- .
 git -C /repo status --short | head -3
